@@ -1,5 +1,6 @@
 SPECIFICATION Spec
-CONSTANT ResetScoreC = FALSE
+CONSTANTS Quick = FALSE
+ ResetScoreC = FALSE
 INVARIANT WithinLimit
 INVARIANT OptimalSingle
 CHECK_DEADLOCK FALSE
